@@ -2,6 +2,7 @@ package main
 
 import (
 	"fmt"
+	"os"
 	"reflect"
 	"strconv"
 	"strings"
@@ -748,8 +749,8 @@ func c19Malformed(c *Ctx) {
 // c19SetupErrors: over-long short names, defaults on booleans, duplicate names (also created by namespaces).
 func c19SetupErrors(c *Ctx) {
 	r := c.R
-	kind := []string{"short-too-long-ascii", "short-too-long-multibyte", "default-on-bool", "dup-short", "dup-long", "dup-long-via-namespace", "dup-in-nested-group", "dup-short-multibyte", "no-duplicate-across-commands", "dup-random-nesting", "dup-random-nesting", "no-dup-random-nesting"}[(c.K/5)%12]
-	via := []string{"NewParser", "AddGroup", "AddCommand"}[(c.K/60)%3]
+	kind := []string{"short-too-long-ascii", "short-too-long-multibyte", "default-on-bool", "dup-short", "dup-long", "dup-long-via-namespace", "dup-in-nested-group", "dup-short-multibyte", "no-duplicate-across-commands", "dup-random-nesting", "dup-random-nesting", "no-dup-random-nesting", "same-untagged-struct-twice", "same-untagged-struct-twice-no-clash"}[(c.K/5)%14]
+	via := []string{"NewParser", "AddGroup", "AddCommand"}[(c.K/70)%3]
 	str := reflect.TypeOf("")
 	mk := func(fs ...reflect.StructField) reflect.Type { return reflect.StructOf(fs) }
 	fld := func(name string, t reflect.Type, tag string) reflect.StructField {
@@ -758,6 +759,7 @@ func c19SetupErrors(c *Ctx) {
 	var rt reflect.Type
 	var want flags.ErrorType
 	wantErr := true
+	wantOptions := -1
 	switch kind {
 	case "short-too-long-ascii":
 		rt = mk(fld("A", str, `short:"ab" long:"alpha"`))
@@ -846,6 +848,25 @@ func c19SetupErrors(c *Ctx) {
 			cur = mk(fields...)
 		}
 		rt = cur
+	case "same-untagged-struct-twice", "same-untagged-struct-twice-no-clash":
+		// one struct type used for two untagged fields of the same struct (value and/or pointer): both copies are
+		// scanned into the same group - their option names clash, unless the options have no flag names at all
+		tag := `long:"host" short:"H"`
+		if kind == "same-untagged-struct-twice-no-clash" {
+			tag = `ini-name:"host"`
+			wantErr = false
+			wantOptions = 3
+		}
+		ep := mk(fld("Host", str, tag))
+		first, second := ep, reflect.Type(reflect.PtrTo(ep))
+		switch r.Intn(3) {
+		case 0:
+			first = reflect.PtrTo(ep)
+		case 1:
+			second = ep
+		}
+		rt = mk(fld("A", str, `long:"alpha"`), fld("Primary", first, ""), fld("Secondary", second, ""))
+		want = flags.ErrDuplicatedFlag
 	case "no-duplicate-across-commands":
 		cmd := mk(fld("A", str, `short:"v" long:"verbose"`))
 		rt = mk(fld("B", str, `short:"v" long:"verbose"`), fld("C", cmd, `command:"sub"`))
@@ -859,11 +880,25 @@ func c19SetupErrors(c *Ctx) {
 		return map[string]interface{}{"mode": "setup-error", "kind": kind, "via": via, "fields": fl}
 	})
 	var err error
+	gotOptions := -1
+	completionMode := via == "NewParser" && wantErr && c.K%4 == 1 && c.W.Tier != "race"
+	handlerCalls := 0
 	pi := safely(func() {
 		switch via {
 		case "NewParser":
 			p := flags.NewParser(reflect.New(rt).Interface(), flags.None)
+			if completionMode {
+				// a declaration that must be refused is refused in completion mode as well - not completed from
+				os.Setenv("GO_FLAGS_COMPLETION", "1")
+				defer os.Unsetenv("GO_FLAGS_COMPLETION")
+				p.CompletionHandler = func(items []flags.Completion) { handlerCalls++ }
+				_, err = p.ParseArgs([]string{"--"})
+				return
+			}
 			_, err = p.ParseArgs(nil)
+			if gs := p.Groups(); len(gs) > 0 {
+				gotOptions = len(gs[0].Options())
+			}
 		case "AddGroup":
 			p := flags.NewNamedParser("app", flags.None)
 			_, err = p.AddGroup("G", "", reflect.New(rt).Interface())
@@ -878,6 +913,14 @@ func c19SetupErrors(c *Ctx) {
 		return
 	}
 	fe, _ := err.(*flags.Error)
+	if handlerCalls > 0 {
+		c.Violate("setup:"+kind+":completed-from-a-refused-declaration", "%s: the completion handler was called %d times although the declaration must be refused (error returned: %v)", kind, handlerCalls, err)
+		return
+	}
+	if !wantErr && wantOptions >= 0 && via == "NewParser" && err == nil && gotOptions != wantOptions {
+		c.Violate("setup:"+kind+":option-count", "%s: the group holds %d options, the declaration has %d", kind, gotOptions, wantOptions)
+		return
+	}
 	if !wantErr {
 		if fe != nil && fe.Type == flags.ErrDuplicatedFlag {
 			c.Violate("spurious-duplicate:"+kind, "distinct names (a command and its parent, or different namespaces) were rejected as duplicates: %v", err)
